@@ -158,17 +158,17 @@ def run_case(case: dict[str, Any]) -> dict[str, Any]:  # noqa: C901, PLR0912, PL
     if "types" in v:
         check(cfg.variables.types.shape == (n,) and bool(np.array_equal(cfg.variables.types, np.broadcast_to(v["types"], (n,)))),
               "broadcast", f"types {cfg.variables.types.tolist()}", case)
-    ow = np.asarray(cfgd["objectives"]["weights"], dtype=np.float64)
+    ow = np.asarray(cfgd.get("objectives", {"weights": [1.0]})["weights"], dtype=np.float64)  # (a section left out: documented defaults)
     check(cfg.objectives.weights.shape == (k_n,) and bool(np.allclose(cfg.objectives.weights, ow / ow.sum(), rtol=1e-12, atol=0)),
           "normalize", f"objective weights {cfg.objectives.weights.tolist()} != {(ow / ow.sum()).tolist()}", case)
     check(abs(float(cfg.objectives.weights.sum()) - 1.0) <= 1e-12, "normalize", "objective weights do not sum to one", case)
-    rw = np.asarray(cfgd["realizations"]["weights"], dtype=np.float64)
+    rw = np.asarray(cfgd.get("realizations", {"weights": [1.0]})["weights"], dtype=np.float64)
     check(cfg.realizations.weights.shape == (r_n,) and bool(np.allclose(cfg.realizations.weights, rw / rw.sum(), rtol=1e-12, atol=0)),
           "normalize", f"realization weights {cfg.realizations.weights.tolist()}", case)
-    rmin = cfgd["realizations"].get("realization_min_success")
+    rmin = cfgd.get("realizations", {}).get("realization_min_success")
     check(cfg.realizations.realization_min_success == (r_n if rmin is None else min(rmin, r_n)), "clamp",
           f"realization_min_success {cfg.realizations.realization_min_success} for {rmin} / R={r_n}", case)
-    g = cfgd["gradient"]
+    g = cfgd.get("gradient", {})
     p_n = g.get("number_of_perturbations", 5)
     pmin = g.get("perturbation_min_success")
     check(cfg.gradient.perturbation_min_success == (p_n if pmin is None else min(pmin, p_n)), "clamp",
@@ -472,6 +472,16 @@ def hypothesis_shard(item: dict[str, Any]) -> Collector:
                 config["variables"]["types"] = value
             else:
                 config["gradient"][field] = value
+        if "invalid" not in case:
+            # sections that only say what the defaults say may be left out altogether
+            if k_n == 1 and objectives == {"weights": [1.0]} and draw(st.booleans()):
+                del config["objectives"]
+            if r_n == 1 and realizations == {"weights": [1.0]} and draw(st.booleans()):
+                del config["realizations"]
+            for name in ("gradient", "optimizer"):
+                if not config[name] and draw(st.booleans()):
+                    del config[name]
+            case["omitted"] = sorted({"objectives", "realizations", "gradient", "optimizer"} - set(config))
         return case
 
     def body(case: dict[str, Any]) -> None:
@@ -482,7 +492,7 @@ def hypothesis_shard(item: dict[str, Any]) -> Collector:
         col.case(case, nontrivial=info["relative"] or info["clamp"] or info["broadcast"] or info["transform"], classes=(
             "relative" if info["relative"] else "absolute", "clamped" if info["clamp"] else "unclamped",
             "broadcast" if info["broadcast"] else "full-length", f"transforms={case['transforms'] or 'none'}",
-            f"L={case['L']}", f"C={case['C']}"))
+            f"L={case['L']}", f"C={case['C']}", "sections-left-out" if case.get("omitted") else "all-sections-given"))
 
     run_hypothesis(col, cases(), body, seed=item["seed"], max_examples=item["examples"])
     return col
